@@ -19,7 +19,7 @@ THEOREMS = ["binAssign_var_correct", "binAssign_fixed_correct", "assign_eq_binOf
             "sumAt_groupFirst", "groupFirst_keysNodup", "groupFirst_perm_groupCells", "aggregateRecords_sort_irrelevant",
             "groupFirst_keys",
             "pixels_count_once", "pixels_reflect_upper", "tableOK_of_valid", "rows_flatMap_eq", "tabix_correct"]
-LEVELS = {"records_top": "top", "records_atlength": "top", "records_unit": "unit", "pixels_top": "top", "pixels_unit": "unit",
+LEVELS = {"records_top": "top", "records_atlength": "top", "records_sequence": "top", "records_unit": "unit", "pixels_top": "top", "pixels_unit": "unit",
           "aggregate_unit": "unit", "cli_pairs": "top", "cli_load": "top", "cli_tabix": "top", "constants": "unit"}
 DESCRIBE = {
     "records_top": "sanitize_records(bins, schema=pairs|bg2, ...)(chunk) then aggregate_records()(…), chunks merged, vs Lean "
@@ -27,6 +27,9 @@ DESCRIBE = {
     "records_atlength": "the comparison of records_top on inputs that contain a record exactly at its chromosome's length (the signature "
                         "of known finding D13); under its own name so that the expected known-finding cases never compete with "
                         "anything else for the runner's per-check mismatch budget",
+    "records_sequence": "the comparison of records_top for several bin tables over the same chromosome names and lengths (two variable-width, "
+                        "one fixed-width) sanitised one after the other in one process, each outcome against the specification for "
+                        "its own table",
     "records_unit": "exact output frame of sanitize_records per chunk (bin ids per record, swapped sided fields, error class) vs "
                     "Lean L1 `sanitizeRecords` (model of the code as it is)",
     "pixels_top": "sanitize_pixels(bins, ...)(chunk) aggregated vs Lean L0 `specPixels` (shifted, oriented id pair)",
@@ -45,7 +48,9 @@ RULE = ("bin tables: uniform (exact and short last bin), variable width, longer 
         "table's chromosomes or unknown and p in -1..L+2, x zero/one-based x tril_action in {reflect,drop,raise,None}; seeded multisets of "
         "<= 8 records (positions on bin edges, 0, L-1, L, L+1, -1, unknown chromosomes, both orientations, duplicates) in several "
         "permutations and chunkings, with sided/unsided extra columns, sort on/off, validate on/off (unit), decode_chroms on/off, "
-        "pairs and bg2 presets; pre-binned records likewise over ids -1..n+1; a sample end to end through the CLI; "
+        "pairs and bg2 presets; the chromosome columns of the record frames in several equally valid forms (object, str, "
+        "categorical with categories in table / sorted / reversed / rotated order, with unused extra categories, with only the "
+        "names that occur); call sequences over tables sharing chromosome names and lengths; pre-binned records likewise over ids -1..n+1; a sample end to end through the CLI; "
         "non-trivial = a non-empty batch of records on a table with >= 2 bins; distinct by canonical JSON")
 EXHAUSTIVE = {"quick": True, "thorough": True}
 TRUSTED = ["pandas Categorical codes (unknown -> -1), boolean masking, groupby(...).aggregate (sorted keys / order of appearance), "
@@ -93,19 +98,59 @@ def _shape(batches):
     return 0, 0
 
 
-def _chunk_df(recs, schema, nx, nu, decode=True):
+CHROM_FORMS = ["infer", "object", "str", "cat-table", "cat-sorted", "cat-reversed", "cat-rotated", "cat-extra", "cat-data"]
+
+
+def _nchroms(bins):
+    return (max(b[0] for b in bins) + 1) if bins else 0
+
+
+def _chrom_columns(v1, v2, form, nchroms):
+    """the two chromosome-name columns in one of several equally valid FORMS; the outcome must not depend on the form.
+    Categorical forms share one dtype between the two columns (so that mirrored values can be exchanged) and always list
+    every name that occurs (a name missing from the categories would be NaN, i.e. a different input)."""
+    if form == "infer":          # a numpy object array, dtype left to the DataFrame constructor
+        return np.array(v1, dtype=object), np.array(v2, dtype=object)
+    if form == "object":
+        return pd.Series(v1, dtype=object), pd.Series(v2, dtype=object)
+    if form == "str":
+        try:
+            return pd.Series(v1, dtype="str"), pd.Series(v2, dtype="str")
+        except TypeError:         # pandas without the str dtype
+            return pd.Series(v1, dtype="string"), pd.Series(v2, dtype="string")
+    table = [gen.chromname(c) for c in range(nchroms)]
+    unlisted = sorted((set(v1) | set(v2)) - set(table))
+    if form == "cat-table":       # categories in bin-table order
+        cats = table + unlisted
+    elif form == "cat-sorted":    # what astype("category") of a column holding every name gives
+        cats = sorted(table + unlisted)
+    elif form == "cat-reversed":
+        cats = table[::-1] + unlisted
+    elif form == "cat-rotated":
+        cats = table[1:] + table[:1] + unlisted
+    elif form == "cat-extra":     # unused categories before, between and after
+        cats = ["unplaced_0"] + table[::2] + ["chrUn_1"] + table[1::2] + unlisted + ["zz_unused"]
+    elif form == "cat-data":      # astype("category") of the data themselves: only the names that occur, sorted
+        cats = sorted(set(v1) | set(v2))
+    else:
+        raise AssertionError(f"unknown chromosome column form {form!r}")
+    dt = pd.CategoricalDtype(cats)
+    return pd.Series(v1, dtype=object).astype(dt), pd.Series(v2, dtype=object).astype(dt)
+
+
+def _chunk_df(recs, schema, nx, nu, decode=True, form="infer", nchroms=0):
     anchor, xs, us = _cols(schema, nx, nu)
     d = {}
+    if decode:
+        d["chrom1"], d["chrom2"] = _chrom_columns([_cname(r[0]) for r in recs], [_cname(r[2]) for r in recs], form, nchroms)
     for side, (ci, pi, xi) in (("1", (0, 1, 4)), ("2", (2, 3, 5))):
-        if decode:
-            d["chrom" + side] = np.array([_cname(r[ci]) for r in recs], dtype=object)
-        else:
+        if not decode:
             d["chrom" + side] = np.array([(-1 if r[ci] is None else r[ci]) for r in recs], dtype=np.int64)
         d[anchor + side] = np.array([r[pi] for r in recs], dtype=np.int64)
         for k, nm in enumerate(xs):
             d[nm + side] = np.array([r[xi][k] for r in recs], dtype=np.int64)
     # column order as the text formats have it: side 1 columns, side 2 columns, values
-    cols = [c for c in d if c.endswith("1")] + [c for c in d if c.endswith("2")]
+    cols = ["chrom1"] + [c for c in d if c.endswith("1") and c != "chrom1"] + ["chrom2"] + [c for c in d if c.endswith("2") and c != "chrom2"]
     for k, nm in enumerate(us):
         d[nm] = np.array([r[6][k] for r in recs], dtype=np.int64)
         cols.append(nm)
@@ -184,13 +229,14 @@ def _check_l1_l0(ans, opts):
 # sanitize_records
 # ---------------------------------------------------------------------------------------------
 
-def _records_top(case):
+def _records_top(case, f=None):
     bins, opts, batches = case["bins"], case["opts"], case["batches"]
     nx, nu = _shape(batches)
     schema = opts.get("schema", "pairs")
     _, _, us = _cols(schema, nx, nu)
     valcol = us[0] if nu else None
-    f = _sanitizer(bins, opts, nx)
+    form, nch = opts.get("chrom_form", "infer"), _nchroms(bins)
+    f = f or _sanitizer(bins, opts, nx)
     answers = drv().ask("C05.sanitize_batch", bins=bins, opts=_lean_opts(opts), batches=batches)
     nret = nrej = nd13 = 0
     first_d13 = None
@@ -198,7 +244,7 @@ def _records_top(case):
         _check_l1_l0(ans, opts)
         cells, err, nrows = [], None, 0
         for ch in batch:
-            st, out = guarded(f, _chunk_df(ch, schema, nx, nu, opts.get("decode", True)))
+            st, out = guarded(f, _chunk_df(ch, schema, nx, nu, opts.get("decode", True), form, nch))
             if st == "err":
                 err = out
                 break
@@ -259,17 +305,36 @@ def _records_atlength(case):
     return known or {"stats": stats}
 
 
+def _records_sequence(case):
+    """several bin tables over the SAME chromosome names and lengths handled one after the other in one process: every
+    sanitizer is built first, then they are used alternately, then rebuilt in another order; each outcome is compared with the
+    specification for ITS table (nothing may be carried over from an earlier call)"""
+    tabs, opts, batches = case["tables"], case["opts"], case["batches"]
+    nx, _ = _shape(batches)
+    fs = [_sanitizer(b, opts, nx) for b in tabs]
+    steps = [(i, fs[i]) for i in case.get("order", list(range(len(tabs))) + [0])]
+    steps += [(i, None) for i in reversed(range(len(tabs)))]      # fresh sanitizers, other order
+    for k, (i, f) in enumerate(steps):
+        r = _records_top({"bins": tabs[i], "opts": opts, "batches": batches}, f=f)
+        if r and r.get("mismatch"):
+            r["step"], r["table"] = k, i
+            r["note"] = r.get("note", "") + f" [call {k} of the sequence, table {i}: {tabs[i]}]"
+            return r
+    return {"stats": {"calls": len(steps)}}
+
+
 def _records_unit(case):
     bins, opts, batches = case["bins"], case["opts"], case["batches"]
     nx, nu = _shape(batches)
     schema = opts.get("schema", "pairs")
+    form, nch = opts.get("chrom_form", "infer"), _nchroms(bins)
     f = _sanitizer(bins, opts, nx)
     answers = drv().ask("C05.sanitize_batch", bins=bins, opts=_lean_opts(opts), batches=batches)
     for bi, (batch, ans) in enumerate(zip(batches, answers)):
         if not ans["valid"]:
             raise AssertionError("generator produced an invalid segmentation")
         for ci, (ch, model) in enumerate(zip(batch, ans["chunks"])):
-            st, out = guarded(f, _chunk_df(ch, schema, nx, nu, opts.get("decode", True)))
+            st, out = guarded(f, _chunk_df(ch, schema, nx, nu, opts.get("decode", True), form, nch))
             if st == "err":
                 if model.get("err") != out:
                     return {"mismatch": True, "batch": bi, "chunk": ch, "impl": {"err": out}, "model": model}
@@ -620,7 +685,8 @@ def _cli_tabix(case):
                 os.unlink(p)
 
 
-CHECKS = {"records_top": _records_top, "records_atlength": _records_atlength, "records_unit": _records_unit, "pixels_top": _pixels_top, "pixels_unit": _pixels_unit,
+CHECKS = {"records_top": _records_top, "records_atlength": _records_atlength, "records_sequence": _records_sequence,
+          "records_unit": _records_unit, "pixels_top": _pixels_top, "pixels_unit": _pixels_unit,
           "aggregate_unit": _aggregate_unit, "cli_pairs": _cli_pairs, "cli_load": _cli_load, "cli_tabix": _cli_tabix,
           "constants": _constants}
 
@@ -745,8 +811,42 @@ def cases(tier, rng):
         late.append(("records_atlength" if nm == "records_top" else nm,
                      {"bins": t_uni, "opts": {"tril": "reflect"}, "trils": ["reflect"], "batches": [[[[0, 1, 0, 4, [], [], []]]], [[[1, 3, 1, 3, [], [], []]]],
                                                                                   [[[0, 4, 1, 0, [], [], []]]]], "kind": "corpus-D13"}))
-    # ---- exhaustive single records ---------------------------------------------------------------
     tabs = tables(tier, rng)
+    # ---- the same records with the chromosome columns in every form -----------------------------------
+    # (the generated chromosome names are deliberately not in sorted order, so "sorted" categories differ from the table's)
+    for label, bins in tabs:
+        L = _sizes(bins)
+        some = [(c, p) for c in range(len(L)) for p in sorted({0, L[c] // 2, L[c] - 1})]
+        pairs = [(a, b) for a in some for b in some]
+        singles = [[[[c1, p1, c2, p2, [], [], [1 + (i % 3), i]]]] for i, ((c1, p1), (c2, p2)) in enumerate(pairs)]
+        everything = [r for b in singles for ch in b for r in ch]
+        with_unlisted = everything[::3] + [[None, 1, 0, 0, [], [], [2, 900]], [len(L) - 1, 0, None, 0, [], [], [1, 901]]]
+        for form in CHROM_FORMS[1:]:
+            for tril, sort in (("reflect", False), (None, True)):
+                opts = {"one_based": False, "tril": tril, "sort": sort, "chrom_form": form}
+                batches = singles[:: (1 if thorough else 2)] + [[everything], [everything[0::2], everything[1::2]], [with_unlisted],
+                                                                 [list(reversed(with_unlisted))[:5], list(reversed(with_unlisted))[5:]]]
+                case = {"bins": bins, "opts": opts, "batches": batches, "kind": f"forms:{label}"}
+                yield "records_top", case
+                yield "records_unit", case
+    # ---- call sequences: tables over the same chromosome names and lengths, one after the other -------
+    seqs = [[gen.chrom_bins(0, [1, 3, 2]) + gen.chrom_bins(1, [2, 1, 4]),      # variable
+             gen.chrom_bins(0, [3, 1, 2]) + gen.chrom_bins(1, [4, 2, 1]),      # variable, other edges
+             gen.chrom_bins(0, [2, 2, 2]) + gen.chrom_bins(1, [2, 2, 2, 1])],  # fixed width 2
+            [gen.chrom_bins(0, [4]) + gen.chrom_bins(1, [1, 1]) + gen.chrom_bins(2, [2, 3]),
+             gen.chrom_bins(0, [1, 3]) + gen.chrom_bins(1, [2]) + gen.chrom_bins(2, [4, 1]),
+             gen.chrom_bins(0, [2, 2]) + gen.chrom_bins(1, [2]) + gen.chrom_bins(2, [2, 2, 1])]]
+    for tabs_seq in seqs:
+        L = _sizes(tabs_seq[0])
+        assert all(_sizes(t) == L for t in tabs_seq)
+        inside = [(c, p) for c in range(len(L)) for p in range(L[c])]
+        everything = [[c1, p1, c2, p2, [], [], [1, i]] for i, ((c1, p1), (c2, p2)) in enumerate((a, b) for a in inside for b in inside)]
+        for one_based in (False, True):
+            recs = [[r[0], r[1] + int(one_based), r[2], r[3] + int(one_based)] + r[4:] for r in everything]
+            for tril in ("reflect", None):
+                yield "records_sequence", {"tables": tabs_seq, "opts": {"one_based": one_based, "tril": tril, "sort": False},
+                                           "batches": [[recs], [recs[0::3], recs[1::3], recs[2::3]]], "kind": "sequence"}
+    # ---- exhaustive single records ---------------------------------------------------------------
     for label, bins in tabs:
         anc = _anchors(bins)
         L = _sizes(bins)
@@ -802,7 +902,7 @@ def cases(tier, rng):
         schema = "bg2" if (nx >= 1 and nu >= 1 and rng.random() < 0.3) else "pairs"
         opts = {"schema": schema, "one_based": one_based, "tril": rng.choice(TRILS + ["reflect", "drop"]),
                 "sort": rng.random() < 0.5, "sided_extra": [rng.random() < 0.6 for _ in range(nx)],
-                "decode": rng.random() < 0.8}
+                "decode": rng.random() < 0.8, "chrom_form": rng.choice(CHROM_FORMS)}
         case = {"bins": bins, "opts": opts, "batches": _perm_batches(rng, recs, 4 if thorough else 3), "kind": f"multi:{label}"}
         yield "records_top", case
         yield "records_unit", case
@@ -912,6 +1012,8 @@ def cases(tier, rng):
 def nontrivial(name, case):
     if name in ("constants", "aggregate_unit"):
         return bool(case.get("rows"))
+    if "tables" in case:
+        return True
     if len(case.get("bins", [])) < 2:
         return False
     if "batches" in case:
